@@ -135,3 +135,15 @@ Section Stream.
     | HDelete :: rest => history upstream rest (delete_dir s)
     end.
 End Stream.
+
+(* ---------- the file as text ---------- *)
+(* file.write(line + '\n') for every line; readline() gives the lines back (a text without a final line break ends in a
+   partial line) *)
+Definition file_text (ls : list line) : str := flat_map (fun l => l ++ [10]) ls.
+
+Fixpoint split_lines (t : str) : list line :=
+  match t with
+  | [] => []
+  | c :: r => if c =? 10 then [] :: split_lines r
+              else match split_lines r with [] => [[c]] | l :: ls => (c :: l) :: ls end
+  end.
